@@ -8,6 +8,7 @@ import Dlismodel.Model.Parse
 import Dlismodel.Model.Eflr
 import Dlismodel.Model.ParseEflr
 import Dlismodel.Model.Iflr
+import Dlismodel.Model.Api
 namespace Dlis
 
 def hexDigit (n : Nat) : Char := if n < 10 then Char.ofNat (48 + n) else Char.ofNat (87 + n)
@@ -195,6 +196,35 @@ def dumpRecs (recs : List Rec) : String :=
       | none => s!"E{r.type} UNDECODABLE {hexOrDash r.body}"
     else s!"I{r.type} {hexOrDash r.body}")
 
+/-! ### API histories -/
+
+def showCps (s : PStr) : String := if s.isEmpty then "-" else ",".intercalate (s.map toString)
+def showOptCps : Option PStr → String | none => "~" | some s => showCps s
+def showOptInt : Option Int → String | none => "~" | some i => toString i
+def showKey (k : Key) : String := s!"{k.1}:{showOptCps k.2}"
+def showItem (it : Item) : String := s!"{showCps it.name}/{showOptInt it.origin}/{it.copy}/{it.lf}"
+
+def parseOutcome : String → Option Outcome
+  | "ok" => some .ok | "early" => some .rejectEarly | "late" => some .rejectLate | _ => none
+
+def parseOp (t : String) : Option Op :=
+  match t.splitOn "|" with
+  | ["I", lf, kind, sn, name, oref, out] => do
+    let lf ← lf.toNat?; let kind ← kind.toNat?; let sn ← optCps sn; let name ← parseCps name
+    let oref ← (if oref == "~" then some none else oref.toInt?.map some); let out ← parseOutcome out
+    pure (Op.item lf kind sn name oref out)
+  | ["O", lf, sn, name, oref, out] => do
+    let lf ← lf.toNat?; let sn ← optCps sn; let name ← parseCps name
+    let oref ← (if oref == "~" then some none else oref.toInt?.map some); let out ← parseOutcome out
+    pure (Op.origin lf sn name oref out)
+  | _ => none
+
+def showWorld (w : World) : String :=
+  let lfs := (List.range w.keys.length).map fun lf =>
+    s!"hdr={showOptInt ((w.headerOrigin.getD lf none))} K=" ++ ",".intercalate ((lfKeys w lf).map showKey) ++ " R=" ++
+      ";".intercalate ((setRecords w lf).map fun (k, its) => showKey k ++ "=" ++ "+".intercalate (its.map showItem))
+  s!"W{if writable w then 1 else 0} items=" ++ "+".intercalate (w.items.map showItem) ++ " # " ++ " # ".intercalate lfs
+
 def handle (ws : List String) : String :=
   match ws with
   | ["U", k, v] => match k.toNat?, v.toInt? with
@@ -323,6 +353,10 @@ def handle (ws : List String) : String :=
   | ["nbody", o, c, n, h] => match o.toInt?, c.toInt?, parseCps n, bytesOfHex h with
     | some o, some c, some n, some p => showRes (noFormatBody { origin := o, copy := c, name := n } p)
     | _, _, _, _ => "bad"
+  | "hist" :: n :: ops =>
+    match n.toNat?, ops.mapM parseOp with
+    | some n, some ops => "ok " ++ showWorld (run (World.init n) ops)
+    | _, _ => "bad"
   | ["peflrv", h] => match bytesOfHex h with
     | some bs => match parseEflr bs with | some d => "ok " ++ showDSetV d | none => "none"
     | none => "bad"
